@@ -609,18 +609,29 @@ def bfs_states(t, nkeys, in_order_modes=(0, 1), max_states=None):
                 tr.delete_key(op[2])
         return tr
 
+    import time
+
     start = repr(dump_node(replay([]).root))
     states = {start: []}
     frontier = [start]
+    t0 = time.time()
+    if max_states is None:
+        max_states = 600  # the unchanged code reaches 71 structures with 6 keys
     while frontier:
+        if time.time() - t0 > 60:
+            break
         nxt = []
         for s in frontier:
             path = states[s]
             for k in range(nkeys):
                 cand = [[INS, 0, k, k + 1, io] for io in in_order_modes] + [[DEL, 0, k]]
                 for op in cand:
-                    tr = replay(path + [op])
-                    d = repr(dump_node(tr.root))
+                    try:
+                        tr = replay(path + [op])
+                        d = repr(dump_node(tr.root))
+                    except Exception:  # noqa - the history is still emitted; the oracle reports it
+                        states["crash:" + repr(path + [op])] = path + [op]
+                        continue
                     if d not in states:
                         states[d] = path + [op]
                         nxt.append(d)
